@@ -220,6 +220,100 @@ pub fn cases(tier: Tier) -> Vec<Case> {
     v
 }
 
+// --- a receiver in transit inside a message whose sender crashes part-way ----------------------
+
+/// The only handle of receiver R travels in a (1- or 3-packet) message whose sending process is
+/// killed before its k-th transport call. If the message never completes, R exists nowhere once
+/// the carrier's owner has consumed (and discarded) what arrived: sends to R must then fail. If it
+/// completes, R is in transit: sends succeed and are delivered after unpacking.
+#[derive(Clone, Debug, Serialize, Deserialize, PartialEq, Eq, Hash)]
+pub struct CrashCase {
+    pub big: bool,
+    pub crash_k: usize,
+    /// the carrier is watched through a receiver set instead of recv()
+    pub select: bool,
+}
+
+fn crash_body(c: &CrashCase) -> Result<(), String> {
+    unsafe {
+        libc::signal(libc::SIGPIPE, libc::SIG_DFL);
+    }
+    let (t2, r2) = ipc::channel::<u32>().map_err(|e| e.to_string())?;
+    let (ctx, crx) = ipc::channel::<(Vec<u8>, IpcReceiver<u32>)>().map_err(|e| e.to_string())?;
+    let m = OsIpcSender::get_max_fragment_size();
+    let len = if c.big { 2 * m + 64 } else { 48 };
+    unsafe {
+        let pid = libc::fork();
+        if pid == 0 {
+            interpose::after_fork_in_child();
+            drop(crx);
+            drop(t2);
+            interpose::set_crash_at(Some(c.crash_k));
+            interpose::arm();
+            let _ = ctx.send((payload(0, 1, len), r2));
+            interpose::die_now();
+        }
+        let mut st = 0;
+        libc::waitpid(pid, &mut st, 0);
+        if !(libc::WIFSIGNALED(st) && libc::WTERMSIG(st) == libc::SIGKILL) {
+            return Err(format!("MACHINERY: the crashing sender ended with status {:#x} instead of SIGKILL", st));
+        }
+    }
+    drop(r2);
+    drop(ctx);
+    let early = t2.send(7);
+    let got: Result<(Vec<u8>, IpcReceiver<u32>), String> = if c.select {
+        let mut set = ipc::IpcReceiverSet::new().map_err(|e| e.to_string())?;
+        set.add(crx).map_err(|e| e.to_string())?;
+        let mut res = Err("closed".to_string());
+        for ev in set.select().map_err(|e| format!("select: {:?}", e))? {
+            if let ipc::IpcSelectionResult::MessageReceived(_, msg) = ev {
+                res = msg.to().map_err(|e| format!("{:?}", e));
+            }
+        }
+        res
+    } else {
+        crx.recv().map_err(|e| format!("{:?}", e))
+    };
+    match got {
+        Ok((d, r)) => {
+            validate(&d)?;
+            early.map_err(|e| format!("the carrying message arrived complete, yet a send to the receiver in transit inside it had failed: {:?}", e))?;
+            let v = r.recv().map_err(|e| format!("a send made while the receiver was in transit was not delivered after unpacking: {:?}", e))?;
+            if v != 7 {
+                return Err(format!("after unpacking, {} arrived where 7 was sent", v));
+            }
+            obs("complete".to_string());
+        },
+        Err(e) => {
+            if c.crash_k == 0 && early.is_ok() {
+                return Err("the only process holding the receiver died before sending anything, yet a send to it reported success".into());
+            }
+            // the interrupted message was consumed and discarded: the receiver in it is gone
+            for (i, big) in [false, true, false].iter().enumerate() {
+                let r = if *big { t2.send(9) } else { t2.send(8) };
+                if r.is_ok() {
+                    return Err(format!("the message carrying the receiver was interrupted by its sender's crash and discarded ({}), so the receiver exists nowhere, yet send #{} to it reported success", e, i));
+                }
+            }
+            obs(format!("interrupted early_ok={}", early.is_ok()));
+        },
+    }
+    Ok(())
+}
+
+pub fn crash_cases(_tier: Tier) -> Vec<CrashCase> {
+    let mut v = Vec::new();
+    for big in [false, true] {
+        for k in 0..=(if big { 9 } else { 4 }) {
+            for select in [false, true] {
+                v.push(CrashCase { big, crash_k: k, select });
+            }
+        }
+    }
+    v
+}
+
 // --- E1: the drop races the stream --------------------------------------------------------------
 
 #[derive(Clone, Debug, Serialize, Deserialize)]
@@ -310,11 +404,31 @@ pub fn run(tier: Tier, _part: bool) -> i32 {
     for (c, e) in fails {
         rep.fail(&format!("{} :: {:?}", e, c), json!({"engine": "E2", "case": c}));
     }
+    let ccs = crash_cases(tier);
+    let mut couts: HashSet<String> = HashSet::new();
+    let mut cfails = Vec::new();
+    sweep(&ccs, 60.0, &|_| Cfg { sched: true, fake_sndbuf: Some(4608), ..Default::default() }, &crash_body, &mut |_, c, out| {
+        n += 1;
+        match super::describe(out) {
+            Ok(o) => {
+                couts.insert(format!("{}/{}/{}", c.big, c.select, o));
+            },
+            Err(e) if e.starts_with("MACHINERY") => rep.machinery(e),
+            Err(e) => cfails.push((c.clone(), e)),
+        }
+    });
+    for (c, e) in cfails {
+        rep.fail(&format!("{} :: {:?}", e, c), json!({"engine": "E2-crash", "case": c}));
+    }
+    if !couts.iter().any(|o| o.contains("complete")) || !couts.iter().any(|o| o.contains("interrupted")) {
+        rep.machinery(format!("crash cases did not produce both a complete and an interrupted carrier message: {:?}", couts));
+    }
+    rep.set("crash_case_outcomes", json!(couts.iter().cloned().collect::<Vec<_>>()));
     let scs = scenarios(tier);
     let tot = e1::run_scenarios(&mut rep, &scs, &e1::strict_judge, if tier.is_quick() { 20.0 } else { 1500.0 });
     rep.set("evaluations", json!(n + tot.execs));
-    rep.set("distinct_nontrivial", json!(distinct.len() as u64 + tot.with_switch));
-    rep.set("rule", json!("E2 case = (stream of <= 3 (5) sends over {small, 3-packet} x {plain, sender+region attached}, position of the drop 0..=n, dropper in {same thread, other thread, forked process that exits}, receiver held directly / inside an undelivered message of a carrier that is dropped / in transit and unpacked at that position), SIGPIPE reset to its default disposition, single task under the scheduler; E1: one evaluation = one schedule (<= bound deviations) of a dropper task racing the stream; non-trivial = at least one send after the drop"));
+    rep.set("distinct_nontrivial", json!(distinct.len() as u64 + couts.len() as u64 + tot.with_switch));
+    rep.set("rule", json!("E2 case = (stream of <= 3 (5) sends over {small, 3-packet} x {plain, sender+region attached}, position of the drop 0..=n, dropper in {same thread, other thread, forked process that exits}, receiver held directly / inside an undelivered message of a carrier that is dropped / in transit and unpacked at that position), SIGPIPE reset to its default disposition, single task under the scheduler; E2-crash case = (carrier message of 1 or 3 packets holding the only handle of a receiver, its sending process killed before transport call k = 0..=4 (0..=9), carrier observed with recv or a receiver set): interrupted => sends to the lost receiver fail, complete => the send made in transit is delivered after unpacking; E1: one evaluation = one schedule (<= bound deviations) of a dropper task racing the stream; non-trivial = at least one send after the drop"));
     rep.set("exhaustive", json!(!tot.capped));
     rep.sample(json!({"case": cs[cs.len() / 2]}));
     rep.assume("sends racing the drop may return either result; only sends begun after the drop completed must fail, only sends returned before it began must succeed");
@@ -322,6 +436,14 @@ pub fn run(tier: Tier, _part: bool) -> i32 {
 }
 
 pub fn replay(tier: Tier, v: &Value) -> i32 {
+    if v["engine"] == "E2-crash" {
+        let Ok(c) = serde_json::from_value::<CrashCase>(v["case"].clone()) else { return 2 };
+        for r in 0..2 {
+            let out = crate::exec::run_one(&Cfg { sched: true, fake_sndbuf: Some(4608), ..Default::default() }, 60.0, &|| crash_body(&c));
+            println!("replay round {}: {:?} -> {:?}", r, c, super::describe(&out));
+        }
+        return 0;
+    }
     if v["engine"] == "E2" {
         let Ok(c) = serde_json::from_value::<Case>(v["case"].clone()) else { return 2 };
         for r in 0..2 {
